@@ -351,6 +351,30 @@ func checkC09(c *Check) {
 				}
 			}
 			c.Cond(ok, key, p.FuncPos(mSet), "SetHeaderMatcher forwards the same matcher to the linked leaf "+f.Name(), "leaf field "+f.Name()+" links another leaf but SetHeaderMatcher does not forward the matcher to it")
+			// the link is made whenever it is asked for: a setter that stores its Leaf parameter into this field does
+			// so on every path (a "defensive" early return silently leaves the short form without its constraints)
+			for _, u := range p.FieldUses(f) {
+				if u.Kind != "store" {
+					continue
+				}
+				st := u.Instr.(*ssa.Store)
+				pi := -1
+				for i, prm := range u.Fn.Params {
+					if strip(st.Val) == ssa.Value(prm) {
+						pi = i
+					}
+				}
+				if pi < 0 {
+					continue
+				}
+				isNil := edgesWhere(u.Fn, cCmp(token.EQL, vParam(u.Fn, pi), vNil), true)
+				k2 := p.FuncKey(u.Fn) + ":links-always"
+				if x, path := (Query{Fn: u.Fn, Cut: isNil, Avoid: isInstr(st)}).FromEntry(isReturn); x != nil {
+					c.Bad(k2, p.Pos(x.Pos()), "the setter of "+f.Name()+" can return without storing the leaf it was given: the implicit short-form leaf stays unlinked and Headers() never reaches it", blockPath(path))
+				} else {
+					c.OK(k2, p.FuncPos(u.Fn), "every path through the setter stores the given leaf", 1)
+				}
+			}
 		}
 		if mSet != nil {
 			// the store itself
